@@ -45,7 +45,10 @@ class CollectorRegistry(Collector):
                         duplicates))
             for name in names:
                 self._names_to_collectors[name] = collector
-            self._collector_to_names[collector] = names
+            # A collector registered again (what it describes having changed
+            # meanwhile) keeps the names recorded earlier, so that unregister()
+            # releases all of them.
+            self._collector_to_names[collector] = self._collector_to_names.get(collector, []) + names
 
     def unregister(self, collector: Collector) -> None:
         """Remove a collector from the registry."""
